@@ -49,6 +49,7 @@ structure E where
   parent : Nat := 0
   port : Nat := 0
   peer : Bool := false                -- accepted conn: the real client is still there
+  real : Bool := false                -- a real socket (no shim view of its registration)
 
 structure DS where
   mode : String := "lt"
@@ -131,7 +132,15 @@ def emit (d : DS) (what ret : String) (id? : Option Nat) (log : Nat := 0) : Stri
   let (cl, lf, it) := match id?.bind d.get with
     | some e => (clStr e.c, left e.c, e.c.q.length)
     | none => ("0", 0, 0)
-  (s!"R {what} ret={ret} open=[{String.intercalate "," d.opens}] close=[{String.intercalate "," (sortStrs d.closes)}] dial=[{String.intercalate "," d.dials}] c={cl} left={lf} items={it} log={log}",
+  -- the interest set without the writing bit, per registration path and mode: every path asks for
+  -- EPOLLERR|EPOLLHUP|EPOLLRDHUP|EPOLLPRI|EPOLLIN (+ EPOLLET, + EPOLLONESHOT)
+  let im := match id?.bind d.get with
+    | some e =>
+      if !e.real && !e.c.closed && e.c.reg && (e.c.kind == Kind.add || e.c.kind == Kind.dial || e.c.kind == Kind.udp) then
+        (if d.mode == "lt" then "201b" else if d.mode == "et" then "8000201b" else "c000201b")
+      else "-"
+    | none => "-"
+  (s!"R {what} ret={ret} open=[{String.intercalate "," d.opens}] close=[{String.intercalate "," (sortStrs d.closes)}] dial=[{String.intercalate "," d.dials}] c={cl} left={lf} items={it} log={log} im={im}",
    { d with opens := [], closes := [], dials := [] })
 
 /-- the read part of an event on a stream conn: data is consumed; an error on an empty queue closes -/
@@ -289,17 +298,18 @@ partial def loop (h : IO.FS.Stream) (d : DS) : IO Unit := do
         if (d.get id).isSome || !d.listen then bad else
         let kind := ws[2]!
         let c0 : Conn := { kind := .dial }
-        if kind == "ok" then
+        if kind == "ok" || kind == "okpeer" then
           let c1 := dialed (dialStart c0 true) none
-          let d := note (d.put { id, c := c1 }) id c0 c1 .nil
+          let d := note (d.put { id, c := c1, real := true }) id c0 c1 .nil
           let a0 : Conn := { kind := .acc }
           let a1 := addReg (addTable (addOpen a0))
-          let d := note (d.put { id := id + 1000, c := a1 }) (id + 1000) a0 a1 .nil
-          -- the dialing end is closed again inside the op; the accepted end sees the peer's close
-          let d := closeE (closeE d id .nil) (id + 1000) .eof
+          let d := note (d.put { id := id + 1000, c := a1, real := true }) (id + 1000) a0 a1 .nil
+          -- one end is closed again inside the op; the other end sees the peer's orderly close
+          let d := if kind == "ok" then closeE (closeE d id .nil) (id + 1000) .eof
+                   else closeE (closeE d (id + 1000) .nil) id .eof
           say d "rdial" "nil" (some id)
         else if kind == "refused" then
-          let d := d.put { id, c := dialStart c0 true }
+          let d := d.put { id, c := dialStart c0 true, real := true }
           let (d, _) := event d id { out := true, hang := true } [] (some .refused) true
           say d "rdial" "nil" (some id)
         else bad
